@@ -410,6 +410,7 @@ impl World {
 				};
 				match r {
 					Some(Some(h)) => {
+						streamctl::adopt(h.verif_id());
 						self.streams.push((h.verif_id(), log.clone()));
 						self.sounds.push(Some(SoundH::Stream(h, log)))
 					}
